@@ -57,6 +57,14 @@ CHECKS = {
    technique="runtime monitoring: reference-model monitor (independent selection) + snapshot diff over generated populations and mutations"),
 }
 CHECKS.update({
+ "C01": dict(level="fault_enumeration", ref="DESIGN.md §3 C01",
+   text="Held at every crash point reached: the real binary (SQLite on disk, WAL checkpoint every 40 ms) is SIGKILLed from inside at 16 named points x hit index {1,2,3,5,8,13,21} and from outside at seeded operation indices under 4 concurrent clients (ingress single/fan-out, publish batches, dequeue, single/batch ack/nack/dead-letter), restarted on the same database (up to 3 generations) and audited against a client-side ledger through the Admin listing (exactly once per target, same payload sha256, acknowledged settlements not undone, nothing nobody sent, restart succeeds, everything deliverable offered again); plus an strace trace specification: a completed fsync of the WAL between the WAL write carrying the message and the 202/200.",
+   note="Process death, not power loss (page cache survives); the trace specification is the substitute for the ordering part. 80 restart audits quick, ~2000 thorough.",
+   technique="runtime monitoring with fault injection: kill-point enumeration + restart audit against a client ledger (offline no-loss / exactly-once checker); strace syscall-order specification"),
+ "C18": dict(level="fault_enumeration", ref="DESIGN.md §3 C18",
+   text="Held (modulo one known finding) on every injected failure and crash point: 9 reload failure kinds x configuration pairs leave a 13-probe behaviour fingerprint unchanged; requests are classified old/new/neither while the reload is parked between its swaps, while a request is parked after route resolution, and free-running with 16 goroutines under the race detector; `hookaido mcp serve` (config_apply, endpoint upsert/delete) and `hookaido run` (Admin PUT) are SIGKILLed at every named point of the file replacement and at injected syscall indices (strace inject) - the file must be the complete old or new content and compile; trace specification write(tmp) -> fsync(tmp) -> rename -> fsync(dir).",
+   note="Known finding KF4 (reader side: per-request configuration reads under separate lock acquisitions). 'Cannot be read' is produced without permission bits (root).",
+   technique="runtime monitoring with fault injection: schedule hooks (rendezvous) + old/new/neither classifier, behaviour-fingerprint comparison, kill-point and syscall-injection enumeration with file-state oracle; Go race detector"),
  "C15": dict(level="exploration", ref="DESIGN.md §3 C15",
    text="Held on every generated batch: 1-40 (thorough up to 1000) items with at most one invalid item of 22 kinds at a generated position, request-level causes, policy variations, managed/unmanaged and global/endpoint-scoped paths, near-full queues under both drop policies on memory and SQLite, through the production Admin wiring; independent validator: reject => snapshot unchanged + item_index names the item; accept => every item present once, queued, as published.",
    note="item_index equality only when exactly one item is invalid.",
